@@ -9,6 +9,7 @@ import (
 	"fmt"
 	"math/rand"
 	"net"
+	"os"
 	"sort"
 	"strconv"
 	"strings"
@@ -275,7 +276,7 @@ func (r *seqRig) addrIndex(a string) int64 {
 
 func newSeqRig() *seqRig {
 	r := &seqRig{rep: &reporter{}}
-	r.seed = sarama.NewMockBroker(r.rep, 100)
+	r.seed = newMock(r.rep, 100)
 	// every listener answers metadata requests from the current view (the client asks its seed; a changed
 	// candidate order must not leave it waiting for a time-out)
 	handler := func(q sarama.VerifC19Request) interface{} {
@@ -296,7 +297,7 @@ func newSeqRig() *seqRig {
 		return buildResponse(q.Version, v, topics, r.addr)
 	}
 	for i := 0; i < naddr; i++ {
-		b := sarama.NewMockBroker(r.rep, int32(200+i))
+		b := newMock(r.rep, int32(200+i))
 		b.VerifC19SetHandler(handler)
 		r.pool = append(r.pool, b)
 	}
@@ -871,6 +872,15 @@ type refCase struct {
 // but never listens, so nobody else (this process, the kernel's ephemeral allocation, other harnesses on the
 // machine) can get the port, and a connect is answered with ECONNREFUSED.
 func refusedAddr() (string, func(), error) {
+	for try := 0; ; try++ {
+		a, rel, err := refusedAddr1()
+		if err == nil || try >= 45 {
+			return a, rel, err
+		}
+		time.Sleep(2 * time.Second) // no free port right now (ports in TIME_WAIT after many runs): wait
+	}
+}
+func refusedAddr1() (string, func(), error) {
 	fd, err := syscall.Socket(syscall.AF_INET, syscall.SOCK_STREAM, 0)
 	if err != nil {
 		return "", nil, err
@@ -886,6 +896,36 @@ func refusedAddr() (string, func(), error) {
 	}
 	port := sa.(*syscall.SockaddrInet4).Port
 	return net.JoinHostPort("127.0.0.1", strconv.Itoa(port)), func() { _ = syscall.Close(fd) }, nil
+}
+
+// newMock opens a MockBroker; when no listener can be had right now (the machine's ephemeral ports are used up,
+// e.g. in TIME_WAIT after many harness runs) it waits and tries again instead of failing the run.
+func newMock(rep *reporter, id int32) *sarama.MockBroker {
+	for try := 0; ; try++ {
+		b, err := tryMock(rep, id)
+		if err == nil {
+			return b
+		}
+		if try >= 45 {
+			panic("harness: cannot open a listener for a mock broker: " + err.Error())
+		}
+		fmt.Fprintln(os.Stderr, "harness: no listener yet:", err)
+		time.Sleep(2 * time.Second)
+	}
+}
+func tryMock(rep *reporter, id int32) (b *sarama.MockBroker, err error) {
+	rep.mu.Lock()
+	n := len(rep.errs)
+	rep.mu.Unlock()
+	defer func() {
+		if x := recover(); x != nil {
+			rep.mu.Lock()
+			b, err = nil, fmt.Errorf("%v %v", x, rep.errs[n:])
+			rep.errs = rep.errs[:n]
+			rep.mu.Unlock()
+		}
+	}()
+	return sarama.NewMockBroker(rep, id), nil
 }
 
 func memI(x int64, l []int64) bool {
@@ -943,7 +983,7 @@ func runRef(r *rand.Rand) (refCase, []string) {
 			defer release()
 			continue
 		}
-		b := sarama.NewMockBroker(rep, int32(l))
+		b := newMock(rep, int32(l))
 		addrs[l] = b.Addr()
 		open = append(open, b)
 	}
@@ -1435,7 +1475,7 @@ func runDl(s dlScript) (dlCase, []string) {
 			defer release()
 			continue
 		}
-		b := sarama.NewMockBroker(rep, int32(l))
+		b := newMock(rep, int32(l))
 		addrs[l] = b.Addr()
 		open = append(open, b)
 	}
